@@ -32,12 +32,12 @@ type c10Move struct {
 var c10Programs = []program{
 	c09Programs[0],
 	{Pkgs: []progPkg{
-		{Path: "root/enc/json", Files: []string{"package json\n\nfunc Marshal(v interface{}) string { return \"\" }\n\ntype Encoder struct{ N int }\n"}},
+		{Path: "root/enc/json", Files: []string{"package json\n\nfunc Marshal(v interface{}) string { return \"\" }\n\ntype Encoder struct{ N int }\n\nconst Indent = 2\n\nvar Default = Encoder{N: 1}\n"}},
 		{Path: "root/x/jsoniter", Files: []string{"package jsoniter\n\nfunc Fast(v interface{}) string { return \"\" }\n"}},
 		{Path: "root/app", Files: []string{
 			"package app\n\nimport \"root/enc/json\"\n\nfunc Encode(v interface{}) string {\n\tvar e json.Encoder\n\t_ = e.N\n\treturn json.Marshal(v)\n}\n",
 			"package app\n\nimport json \"root/x/jsoniter\"\n\nfunc Quick(v interface{}) string { return json.Fast(v) }\n",
-			"package app\n\nimport . \"root/enc/json\"\n\nvar table = map[string]func(interface{}) string{\"m\": Marshal}\n\nfunc Dot(v interface{}) string { return Marshal(Encoder{N: 1}) }\n",
+			"package app\n\nimport . \"root/enc/json\"\n\nvar table = map[string]func(interface{}) string{\"m\": Marshal}\n\nvar widths = map[int]string{Indent: \"two\"}\n\nvar known = [...]Encoder{Indent: Default}\n\nfunc Dot(v interface{}) string { return Marshal(Encoder{N: 1}) }\n",
 		}},
 		{Path: "root/other", Files: []string{"package other\n\nvar Unrelated = 1\n"}},
 	}},
@@ -235,7 +235,7 @@ func c10Prop(c *Ctx) {
 	}
 	cands := []cand{
 		{0, 0, "use"}, {0, 0, "local"}, {0, 0, "sh"}, {0, 1, "dot"}, {0, 1, "dotted"}, {0, 2, "al"}, {0, 2, "aliased"},
-		{1, 0, "Encode"}, {1, 1, "Quick"}, {1, 2, "Dot"}, {1, 2, "table"},
+		{1, 0, "Encode"}, {1, 1, "Quick"}, {1, 2, "Dot"}, {1, 2, "table"}, {1, 2, "widths"}, {1, 2, "known"},
 	}
 	for _, cd := range cands {
 		nfiles := 3
@@ -255,7 +255,7 @@ func c10Prop(c *Ctx) {
 			}
 		}
 		// into another package (only declarations without references to local objects)
-		if cd.prog == 1 && (cd.decl == "Encode" || cd.decl == "Quick" || cd.decl == "Dot" || cd.decl == "table") {
+		if cd.prog == 1 && (cd.decl == "Encode" || cd.decl == "Quick" || cd.decl == "Dot" || cd.decl == "table" || cd.decl == "widths" || cd.decl == "known") {
 			mv := c10Move{Prog: 1, FromFile: cd.file, Decl: cd.decl, ToPkg: "root/other", ToFile: 0}
 			c.Res.Evaluations++
 			c.Res.seen(fmt.Sprint(mv))
